@@ -440,6 +440,32 @@ func witnessRmStale(scratch string, fsck bool) (bool, string) {
 	return false, "listing right after Remove from a two-block directory"
 }
 
+// witnessDirShrink: a two-block root directory loses a name (the rest fits one block, the directory keeps both),
+// then a name is created in it: writeDirectory sets i_size and i_blocks to one block.
+func witnessDirShrink(scratch string) (bool, string) {
+	cfg, d, fs, err := smallVolume()
+	if err != nil {
+		return false, "cannot create volume: " + err.Error()
+	}
+	r := newRef()
+	rn := &runner{fs: fs, ref: r, bs: 1024}
+	var ops []op
+	for i := 1; i <= 5; i++ {
+		ops = append(ops, op{kind: "create", path: fmt.Sprintf("f%d_%s", i, strings.Repeat("n", 197))})
+	}
+	ops = append(ops, op{kind: "remove", path: ops[0].path}, op{kind: "create", path: "x"})
+	for _, o := range ops {
+		if out := rn.exec(o); out.refused != nil || out.panicked != "" || out.problem != "" {
+			return false, fmt.Sprintf("%s: %v %s %s", o, out.refused, out.panicked, out.problem)
+		}
+	}
+	ok, out := x.FsckDev(d, cfg.Start, cfg.Size, scratch, "w")
+	if ok {
+		return false, "clean after a create in a directory with a spare block"
+	}
+	return strings.Contains(out, "Inode 2, i_size is"), "five files with 200-byte names in the root (two directory blocks), Remove of the first, create x: " + x.FsckSummary(out)
+}
+
 // asFoundTrail: File.Write leaves its loop only when one WriteAt took the whole buffer (set by the witness);
 // the Lean mirror runs with the same switch (cum=0) so that the correspondence is exact on either tree.
 var asFoundTrail bool
@@ -502,6 +528,8 @@ func (e *engine) probeDefects() {
 		e.def.staleLink, m = safely(func() (bool, string) { return witnessStaleLink(c.Scratch) })
 		c.Known(tagStaleLink, e.def.staleLink, m)
 		c.Known(tagStale, e.def.stale, staleMsg)
+		e.def.dirShrink, m = safely(func() (bool, string) { return witnessDirShrink(c.Scratch) })
+		c.Known(tagDirShrink, e.def.dirShrink, m)
 		e.def.dealloc, m = safely(witnessDealloc)
 		asFoundDealloc = e.def.dealloc
 		c.Known(tagDealloc, e.def.dealloc, m)
